@@ -368,3 +368,18 @@ Proof.
   pose proof (convert_limit_full env mr root Et Hc) as H2.
   rewrite H1 in H2. inversion H2. reflexivity.
 Qed.
+
+Lemma wrap_count_is_lines env r0 lines :
+  ce_text env = WList lines -> rimplicit r0 = true ->
+  copies_of env r0 = N.of_nat (length (wrap_lines lines)) /\
+  forall i, wrap_line env i = nth (N.to_nat i) (wrap_lines lines) [].
+Proof.
+  intros Et Hi. split; [exact (copies_of_lines env r0 lines Et Hi)|intros i; exact (wrap_line_lines env lines i Et)].
+Qed.
+
+(* the implicit-repeater rule, one round of the copy loop, on a non-empty copy *)
+Lemma place_line_rule env i x0 xs w :
+  place_line env true i (x0 :: xs, w) =
+    if w_ins w then (x0 :: xs, w)
+    else (on_last_deepest (fun n => insert_text n (wrap_line env i)) (x0 :: xs), w_set_tins w).
+Proof. unfold place_line. cbn [andb]. destruct (w_ins w); reflexivity. Qed.
